@@ -53,7 +53,7 @@ func loopCoversAll(l *rangeLoop) (bool, string) {
 		return true, ""
 	}
 	if l.header.Comment == "rangeindex.loop" {
-		if regexp.MustCompile(`\[[^\]]*:[^\]]*\]$`).MatchString(l.over) {
+		if isSubSliceExpr(l.over) {
 			return false, "it ranges over the sub-slice " + l.over
 		}
 		return true, ""
@@ -72,6 +72,45 @@ func loopCoversAll(l *rangeLoop) (bool, string) {
 		return false, "its bound is " + b
 	}
 	return true, ""
+}
+
+// isSubSliceExpr: the normalised expression ends in a slice expression x[a:b] (brackets matched, so that element
+// types like []error inside x do not confuse the test).
+func isSubSliceExpr(s string) bool {
+	if !strings.HasSuffix(s, "]") {
+		return false
+	}
+	depth := 0
+	for i := len(s) - 1; i >= 0; i-- {
+		switch s[i] {
+		case ']', ')', '}':
+			depth++
+		case '(', '{':
+			depth--
+		case '[':
+			depth--
+			if depth == 0 {
+				return false
+			}
+		case ':':
+			// "p:name" and "new:name" are how parameters and locals are written, not a slice colon
+			isPrefix := false
+			if i+1 < len(s) && (s[i+1] == '_' || (s[i+1] >= 'a' && s[i+1] <= 'z') || (s[i+1] >= 'A' && s[i+1] <= 'Z')) {
+				for _, pre := range []string{"p", "new"} {
+					if strings.HasSuffix(s[:i], pre) {
+						j := i - len(pre) - 1
+						if j < 0 || !((s[j] >= 'a' && s[j] <= 'z') || (s[j] >= 'A' && s[j] <= 'Z') || (s[j] >= '0' && s[j] <= '9') || s[j] == '_') {
+							isPrefix = true
+						}
+					}
+				}
+			}
+			if depth == 1 && !isPrefix {
+				return true
+			}
+		}
+	}
+	return false
 }
 
 // ruleChildrenAll (L-children-all).
